@@ -5,6 +5,7 @@ package verifharness
 import (
 	"fmt"
 	"math/rand/v2"
+	"os"
 	"strings"
 	"sync"
 	"testing"
@@ -22,6 +23,7 @@ var c06Classes = []string{
 	"unknown-pause", "unknown-stop", "unknown-resume", "unknown-remove", "unknown-rollout-deploy", "unknown-rollout-set", "unknown-rollout-stop",
 	"split-without-rollout",
 	"conflict-race",
+	"overlap-same-name-unhealthy", "overlap-same-name-conflict",
 }
 
 type c06Scenario struct {
@@ -210,6 +212,9 @@ func c06Run(t *testing.T, run *Run, sc c06Scenario, rng *rand.Rand) {
 	case "conflict-race":
 		c06Race(w, run, sc, g, existing, list)
 		return
+	case "overlap-same-name-unhealthy", "overlap-same-name-conflict":
+		c06SameName(w, run, sc, existing)
+		return
 	case "split-without-rollout":
 		mustFail = false
 		for _, name := range existing {
@@ -313,6 +318,92 @@ func c06Run(t *testing.T, run *Run, sc c06Scenario, rng *rand.Rand) {
 	run.Count("observables_compared", len(before))
 	run.Class(fmt.Sprintf("%s|services=%d|err=%s", sc.Class, len(existing), strings.SplitN(rec.Err, " (", 2)[0]))
 	run.Sample(map[string]any{"class": sc.Class, "failing_command": f, "error": rec.Err, "history_len": len(sc.History), "services": existing, "observables": len(before)})
+}
+
+// c06SameName: a first deploy of a new service name that is going to fail (its targets never become
+// healthy; or it claims a host somebody owns and finds out at the install step) overlaps a second
+// deploy of the *same name* that succeeds in the meantime. When the first one reports its error,
+// the service the second one installed is what it was: routed, listed, probed, saved.
+func c06SameName(w *World, run *Run, sc c06Scenario, existing []string) {
+	fail := func(sig, format string, a ...any) {
+		run.Violate(sig, fmt.Sprintf(format, a...), sc, func() []string { return w.Trace(200) })
+	}
+	const name = "twin"
+	hostA := "twin.example"
+	if sc.Class == "overlap-same-name-conflict" {
+		// A claims the host of an existing service (refused at the install step, once its slow-starting targets are healthy)
+		w.AddTarget("owner-t0:80", nil)
+		if c := w.Deploy("owner", []string{"owner-t0:80"}, server.ServiceOptions{TLSRedirect: true, Hosts: []string{"owned.example"}}, DefTO, 5*time.Second, time.Second); c.Err != "" {
+			run.Inconclusive("setup deploy: %s", c.Err)
+			return
+		}
+		hostA = "owned.example"
+		w.AddTarget("twin-a0:80", func(n int, at time.Duration) ProbeAct {
+			if n < 2 {
+				return ProbeAct{Status: 500}
+			}
+			return ProbeAct{Status: 200}
+		})
+	} else {
+		w.AddTarget("twin-a0:80", failProbe)
+	}
+	w.AddTarget("twin-b0:80", nil)
+	t0 := w.Now() + time.Second
+	var ra, rb *CmdRec
+	w.At(t0, func() {
+		ra = w.Deploy(name, []string{"twin-a0:80"}, server.ServiceOptions{TLSRedirect: true, Hosts: []string{hostA}}, DefTO, 3*time.Second, time.Second)
+	})
+	w.At(t0+500*time.Millisecond, func() {
+		rb = w.Deploy(name, []string{"twin-b0:80"}, server.ServiceOptions{TLSRedirect: true, Hosts: []string{"twin.example"}}, DefTO, 3*time.Second, time.Second)
+	})
+	w.Wait()
+	if ra == nil || rb == nil || ra.Panic != "" || rb.Panic != "" {
+		fail("panic:"+sc.Class, "overlapping deploys of one name: %+v %+v", ra, rb)
+		return
+	}
+	if rb.Err != "" {
+		run.Count("second_deploy_failed_not_judged", 1)
+		return
+	}
+	if ra.Err == "" {
+		fail("expected-failure-succeeded:"+sc.Class, "the first deploy of %s returned no error", name)
+		return
+	}
+	if ra.Ret <= rb.Ret {
+		run.Count("first_deploy_failed_before_the_second_installed", 1)
+	}
+	time.Sleep(10 * time.Second)
+	r := w.Do(Req{ID: "twin-after", Host: "twin.example", Path: "/"})
+	if r.Status != 200 || r.Target != "twin-b0:80" {
+		fail("state-changed:"+sc.Class+":routing", "deploy of %s failed at %v (%s); the service a second deploy of that name had installed at %v now answers status=%d target=%q", name, ra.Ret, ra.Err, rb.Ret, r.Status, r.Target)
+		return
+	}
+	if d, ok := w.Router.ListActiveServices()[name]; !ok || !strings.Contains(d.Target, "twin-b0:80") {
+		fail("state-changed:"+sc.Class+":list", "deploy of %s failed (%s); the service installed by the overlapping deploy is listed as %+v (present=%v)", name, ra.Err, d, ok)
+		return
+	}
+	probed := false
+	for _, pr := range w.Target("twin-b0:80").ProbeLog() {
+		if pr.Start > ra.Ret+3*time.Second {
+			probed = true
+		}
+	}
+	if !probed {
+		fail("state-changed:"+sc.Class+":probing", "deploy of %s failed at %v (%s); the target installed by the overlapping deploy has not been probed since", name, ra.Ret, ra.Err)
+		return
+	}
+	for _, pr := range w.Target("twin-a0:80").ProbeLog() {
+		if pr.Start > ra.Ret+Eps {
+			fail("probe-after-failure:"+sc.Class, "target twin-a0:80 of the failed deploy (returned %v) was probed again at %v", ra.Ret, pr.Start)
+			return
+		}
+	}
+	w.Cmd("rollout-stop", "nosuch", func() error { return w.Router.StopRollout("nosuch-service") })
+	if data, err := os.ReadFile(w.StatePath); err != nil || !strings.Contains(string(data), `"twin-b0:80"`) || strings.Contains(string(data), `"twin-a0:80"`) {
+		fail("state-changed:"+sc.Class+":statefile", "deploy of %s failed (%s); the saved state does not describe the service installed by the overlapping deploy (read error %v)", name, ra.Err, err)
+		return
+	}
+	run.Class(fmt.Sprintf("%s|services=%d|err=%s", sc.Class, len(existing), strings.SplitN(ra.Err, " (", 2)[0]))
 }
 
 // c06Race: two deploys by different (new) services claiming the same free pair are held at the hook
